@@ -71,6 +71,11 @@ impl<T: Obsable> SeqObs for Array1<T> {
         self.iter().map(|x| x.obs()).collect()
     }
 }
+impl<T: Obsable> SeqObs for PlainVec<T> {
+    fn seq(&self) -> Vec<Obs> {
+        self.items.iter().map(|x| x.obs()).collect()
+    }
+}
 impl<T: Obsable> SeqObs for SimVec<T> {
     fn seq(&self) -> Vec<Obs> {
         self.items.iter().map(|x| x.obs()).collect()
@@ -107,6 +112,7 @@ fn run_gen(g: &Gen, out: Container) -> Result<Vec<Obs>, String> {
                 Container::Deque => build_gen::<$t, VecDeque<$t>>(&g.kind),
                 Container::Array1 => build_gen::<$t, Array1<$t>>(&g.kind),
                 Container::Sim => build_gen::<$t, SimVec<$t>>(&g.kind),
+                Container::Plain => build_gen::<$t, PlainVec<$t>>(&g.kind),
                 Container::Polars => return polars_gen(g),
             }
         };
@@ -319,6 +325,7 @@ fn check_gen_tracked(g: &Gen) -> (Vec<Violation>, RunStats) {
             Container::Deque => build::<VecDeque<Tracked>>(len, empty),
             Container::Array1 => build::<Array1<Tracked>>(len, empty),
             Container::Sim => build::<SimVec<Tracked>>(len, empty),
+            Container::Plain => build::<PlainVec<Tracked>>(len, empty),
             Container::Polars => return Err(format!("{HARNESS} polars columns hold options")),
         })
     });
